@@ -41,7 +41,7 @@ func checkC03(c *Ctx) {
 	wGlobal = w
 	m := w.runner()
 	c.rule("C03.R1", "compound assignment: each assignment operator of grammar rule set_statement reaches `previous OP value` (operands on the prescribed sides) for the types Yarn allows and an error otherwise; the token map is total and injective", 20)
-	c.rule("C03.R2", "atomic statement: at most one Set*Value per path, only `return nil` after it, no error return after a storer mutation", 1)
+	c.rule("C03.R2", "atomic statement: exactly one Set*Value on every path that returns nil, only `return nil` after it, no error return after a storer mutation", 1)
 	c.rule("C03.R3", "type stability: each Set<T>Value is entailed by `variable unknown or previous value of type T`", 3)
 	c.rule("C03.R4", "the host's storer is the source of truth: only the set executor and RestoreAt mutate it, it is the field set once by the constructor, the evaluator reads variables through it without caching, declare goes through the set executor with plain assignment", 8)
 	c.rule("C03.R5", "InMemoryStorer: each Set<T>Value removes the name from the two sibling maps; GetValue, GetValues and Contains consult all three maps", 6)
@@ -158,6 +158,20 @@ func checkC03(c *Ctx) {
 	walkNoLit(f.Body, func(n ast.Node) bool {
 		sw, ok := n.(*ast.SwitchStmt)
 		if !ok || sw.Tag != nil {
+			return true
+		}
+		// the dispatch on the value's type is the switch whose arms write the storer (other switches over the same tests —
+		// a comparison helper, say — are not it)
+		writes := false
+		walkNoLit(sw, func(q ast.Node) bool {
+			if call, ok := q.(*ast.CallExpr); ok {
+				if name, on := methodCallOn(info, call, m.fStore); on && strings.HasPrefix(name, "Set") {
+					writes = true
+				}
+			}
+			return true
+		})
+		if !writes {
 			return true
 		}
 		for _, cl := range sw.Body.List {
@@ -349,8 +363,42 @@ func checkC03(c *Ctx) {
 	}
 
 	// ----- R2
+	// the state is "<base>" or "<base>|<alternatives known absent>"; a value has exactly one alternative (A1), so a path on
+	// which all three are known absent is not a path
+	splitR2 := func(st string) (string, string) {
+		if i := strings.Index(st, "|"); i >= 0 {
+			return st[:i], st[i+1:]
+		}
+		return st, ""
+	}
 	r := evtRule{
-		start: "",
+		start: "idle",
+		edge: func(ei edgeInfo) []string {
+			b, ok := unparen(ei.Cond).(*ast.BinaryExpr)
+			if !ok || ei.Tag != nil || (b.Op != token.NEQ && b.Op != token.EQL) {
+				return nil
+			}
+			var other ast.Expr
+			if isNilExpr(info, b.Y) {
+				other = b.X
+			} else if isNilExpr(info, b.X) {
+				other = b.Y
+			}
+			if other == nil {
+				return nil
+			}
+			absent := (b.Op == token.NEQ) != ei.Branch
+			if !absent {
+				return nil
+			}
+			sx := x.str(other)
+			for _, alt := range []string{"Number", "Boolean", "String"} {
+				if sx == V+"."+alt {
+					return []string{"NO:" + alt}
+				}
+			}
+			return nil
+		},
 		prim: func(n ast.Node) []string {
 			if call, ok := n.(*ast.CallExpr); ok {
 				if name, on := methodCallOn(info, call, m.fStore); on && (strings.HasPrefix(name, "Set") || name == "Clear") {
@@ -371,18 +419,46 @@ func checkC03(c *Ctx) {
 			}
 			return nil
 		},
-		step: func(st, ev string) string {
-			switch {
-			case ev == "SET" && st == "":
-				return "set"
-			case ev == "SET":
-				return "set-twice"
-			case ev == "CALL" && st == "set":
-				return "set-then-call"
+		step: func(full, ev string) string {
+			st, no := splitR2(full)
+			if st == "dead" {
+				return ""
 			}
-			return ""
+			if strings.HasPrefix(ev, "NO:") {
+				alt := strings.TrimPrefix(ev, "NO:")
+				if !has(strings.ReplaceAll(no, ",", " "), alt) {
+					if no == "" {
+						no = alt
+					} else {
+						parts := append(strings.Split(no, ","), alt)
+						sort.Strings(parts)
+						no = strings.Join(parts, ",")
+					}
+				}
+				if strings.Count(no, ",") >= 2 {
+					return "dead"
+				}
+				return st + "|" + no
+			}
+			nx := ""
+			switch {
+			case ev == "SET" && st == "idle":
+				nx = "set"
+			case ev == "SET":
+				nx = "set-twice"
+			case ev == "CALL" && st == "set":
+				nx = "set-then-call"
+			}
+			if nx == "" {
+				return ""
+			}
+			if no != "" {
+				return nx + "|" + no
+			}
+			return nx
 		},
-		bad: func(st, ev string) string {
+		bad: func(full, ev string) string {
+			st, _ := splitR2(full)
 			switch st {
 			case "set-twice":
 				return "a second storer mutation on the same path: a failing or partial statement would leave the variable half-updated"
@@ -393,19 +469,95 @@ func checkC03(c *Ctx) {
 			}
 			return ""
 		},
-		ret: func(st string, ret *ast.ReturnStmt, kind string) string {
-			if st != "" && kind != "nil" {
+		ret: func(full string, ret *ast.ReturnStmt, kind string) string {
+			st, _ := splitR2(full)
+			if st == "dead" {
+				return ""
+			}
+			if st != "idle" && kind != "nil" {
 				return "a return that may carry an error is reachable after the storer was mutated (a failing statement must leave every variable as it was)"
+			}
+			if st == "idle" && kind == "nil" {
+				return "the statement can succeed without writing the storer: on that path the variable keeps its old value although the assignment was reported as done"
 			}
 			return ""
 		},
 	}
 	fs := runEVT(w, f, r)
 	if len(fs) == 0 {
-		c.ob("C03.R2", f.Name+"/atomic", w.Pos(f.Decl.Pos()), true, "every path mutates the storer at most once and then returns nil")
+		c.ob("C03.R2", f.Name+"/atomic", w.Pos(f.Decl.Pos()), true, "every path that succeeds mutates the storer exactly once and then returns nil; a path that fails mutates nothing")
 	}
 	for i, fd := range fs {
 		c.ob("C03.R2", f.Name+"/atomic#"+itoa(i+1), w.Pos(fd.pos), false, fd.msg)
+	}
+	// the declare executor goes through the set executor: the same discipline around that call — nothing may fail after it
+	if m.decl != nil && m.decl.Body != nil {
+		dinfo := m.decl.Pkg.TypesInfo
+		isSetCall := func(n ast.Node) bool {
+			call, ok := n.(*ast.CallExpr)
+			if !ok {
+				return false
+			}
+			if callee := calleeOf(dinfo, call); callee != nil && w.byObj[callee] == m.set {
+				return true
+			}
+			if name, on := methodCallOn(dinfo, call, m.fStore); on && (strings.HasPrefix(name, "Set") || name == "Clear") {
+				return true
+			}
+			return false
+		}
+		rd := evtRule{
+			start: "idle",
+			prim: func(n ast.Node) []string {
+				if isSetCall(n) {
+					return []string{"SET"}
+				}
+				return nil
+			},
+			step: func(st, ev string) string {
+				if ev == "SET" {
+					if st == "idle" {
+						return "set"
+					}
+					return "set-twice"
+				}
+				return ""
+			},
+			bad: func(st, ev string) string {
+				if st == "set-twice" && ev == "SET" {
+					return "the declaration writes the variable twice"
+				}
+				return ""
+			},
+			ret: func(st string, ret *ast.ReturnStmt, kind string) string {
+				if st == "idle" || kind == "nil" {
+					return ""
+				}
+				// handing on the set executor's own result is that executor's (atomic) outcome
+				if len(ret.Results) == 1 && isSetCall(unparen(ret.Results[0])) {
+					return ""
+				}
+				// `if err := set(…); err != nil { return err }`: the error of the call itself
+				if len(ret.Results) == 1 {
+					if id := identOf(ret.Results[0]); id != nil {
+						if v, ok := dinfo.Uses[id].(*types.Var); ok {
+							dx := w.expander(m.decl)
+							if rhs, _, _, ok := dx.def(v); ok && rhs != nil && isSetCall(unparen(rhs)) {
+								return ""
+							}
+						}
+					}
+				}
+				return "an error can be returned after the declaration has already written the variable: a rejected declaration must leave the variable as it was"
+			},
+		}
+		fsd := runEVT(w, m.decl, rd)
+		if len(fsd) == 0 {
+			c.ob("C03.R2", m.decl.Name+"/atomic", w.Pos(m.decl.Decl.Pos()), true, "nothing can fail after the declaration has written the variable")
+		}
+		for i, fd := range fsd {
+			c.ob("C03.R2", m.decl.Name+"/atomic#"+itoa(i+1), w.Pos(fd.pos), false, fd.msg)
+		}
 	}
 
 	// ----- R6
